@@ -148,11 +148,14 @@ Print Assumptions c17_trylock_call_spec.
 (* ---------------------------------------------------------------- mutual exclusion (re-modelled sync.Mutex) *)
 
 (* PARTIAL in this sense: Lock / Unlock of sync.Mutex are runtime code without yield points; they
-   are re-modelled from the Go 1.23 source (fast path, lockSlow with the spin branch that sets
+   are modelled from the Go source (fast path, lockSlow with the spin branch that sets
    mutexWoken, normal and starvation mode, hand-off AddInt32, unlockSlow, the semaphore as a
    token counter; the runtime_canSpin answers and the 1 ms tests as per-call oracle numbers:
-   any number of spin iterations, the threshold found exceeded from any wake-up on) and NOT
-   stepped against the implementation.  TryLock's three steps in that model are the record-level image of
+   any number of spin iterations, the threshold found exceeded from any wake-up on).  The check
+   steps this model on every run against a copy of Lock/lockSlow/Unlock/unlockSlow generated
+   from the source file of the toolchain in use (vlib/mxgen.py, vlib/c17mx.py), not against
+   the compiled runtime; the semaphore, canSpin and nanotime stay modelled.
+   TryLock's three steps in that model are the record-level image of
    mx_trylock_step, the function that IS stepped against loom/mutex.go
    (the c17_trylock_rec_refines theorems).  throw/fatal are dead ends of the model; they are
    unreachable (c17_mutex_no_inconsistent_state below).
@@ -238,7 +241,7 @@ Qed.
    c17_mutex_no_inconsistent_state: in no reachable state is any thread at the dead pc, and no
    step of any run is the panic event.  The dead pc stands for
      - lockSlow's throw("sync: inconsistent mutex state") before the CAS (awoke but the
-       snapshot has mutexWoken clear),
+       snapshot has mutexWoken clear; taken in the step of the load that produced the snapshot),
      - lockSlow's throw after a wake-up in starvation mode (old&(mutexLocked|mutexWoken) != 0 or
        no waiter),
      - a hand-off AddInt32 on a word where the addition would not be field-wise (locked set,
@@ -330,7 +333,7 @@ Print Assumptions c17_mutex_waiters_le_threads.
    word; on a word without waiters; hand-off addition on a locked word; Unlock of an unlocked word *)
 Example c17_dead_ends_exist :
   snd (mx_step_th {| xl := true; xk := false; xs := false; xn := 0 |} 0
-         (mx_mkth (XLCas 0 0 true false {| xl := true; xk := false; xs := false; xn := 0 |}) false [])) = XEPanic /\
+         (mx_mkth (XLLoad 0 0 true false) false [])) = XEPanic /\
   snd (mx_step_th {| xl := true; xk := false; xs := true; xn := 1 |} 0 (mx_mkth (XLWoke 0 0 true) false [])) = XEPanic /\
   snd (mx_step_th {| xl := false; xk := false; xs := true; xn := 0 |} 0 (mx_mkth (XLWoke 0 0 true) false [])) = XEPanic /\
   snd (mx_step_th {| xl := true; xk := false; xs := true; xn := 1 |} 0 (mx_mkth (XLHand true) false [])) = XEPanic /\
